@@ -19,6 +19,7 @@ import (
 	"context"
 	"encoding/binary"
 	"fmt"
+	"hash/crc32"
 	"math/rand"
 	"os"
 	"path/filepath"
@@ -61,7 +62,44 @@ func c29Listing(e *explorer.Explorer) string {
 	if len(hx) == 0 {
 		hx = []string{"none"}
 	}
-	return fmt.Sprintf("listing total=%d scanned=%d errors=%d names=%s", st.TotalFiles, st.ScannedFiles, st.ErrorCount, strings.Join(hx, ","))
+	// the same set through the paginated, filtered and per-swamp queries
+	paged := "ok"
+	var viaPages []string
+	for off := int64(0); ; off += 3 {
+		r := e.ListSwamps(&explorer.SwampFilter{Offset: off, Limit: 3})
+		if r == nil || int(r.Total) != len(names) {
+			paged = "DIFF-total"
+			break
+		}
+		for _, d := range r.Swamps {
+			viaPages = append(viaPages, d.Sanctuary+"/"+d.Realm+"/"+d.Swamp)
+		}
+		if off+3 >= r.Total {
+			break
+		}
+	}
+	if paged == "ok" && strings.Join(viaPages, "\x00") != strings.Join(names, "\x00") { // pages in name order, union = the set
+		paged = "DIFF-pages"
+	}
+	realms := 0
+	for _, sn := range e.ListSanctuaries() {
+		realms += len(e.ListRealms(sn.Name))
+	}
+	detail := "ok"
+	for _, n := range names {
+		p := strings.SplitN(n, "/", 3)
+		if d, err := e.GetSwampDetail(p[0], p[1], p[2]); err != nil || d == nil {
+			detail = "DIFF"
+		}
+	}
+	// what a caller gets who asks for "everything" in one ListSwamps call, as the TUI does per realm
+	one := e.ListSwamps(&explorer.SwampFilter{Limit: 10000})
+	nm := strings.Join(hx, ",")
+	if len(names) > 40 { // large directories: digest instead of the full list
+		nm = fmt.Sprintf("digest:%d:%08x", len(names), crc32.ChecksumIEEE([]byte(strings.Join(hx, ","))))
+	}
+	return fmt.Sprintf("listing total=%d scanned=%d errors=%d names=%s paged=%s realms=%d detail=%s onepage=%d/%d", st.TotalFiles, st.ScannedFiles, st.ErrorCount,
+		nm, paged, realms, detail, len(one.Swamps), one.Total)
 }
 
 func c29Run(in *bufio.Scanner, w *bufio.Writer) {
@@ -347,6 +385,36 @@ func c29Gen(rng *rand.Rand, tier string, w *bufio.Writer) {
 	fmt.Fprintln(w, "scan")
 	fmt.Fprintln(w, "wipe")
 	fmt.Fprintln(w, "scan") // a re-scan that finds nothing must list nothing
+	// a realm with more swamps than one ListSwamps page can carry (the limit is clamped to 1000)
+	fmt.Fprintf(w, "case %d\n", caseNo)
+	caseNo++
+	{
+		p := newPath()
+		fw, err := v2.NewFileWriterWithName(p, 0, "big/realm/s0000")
+		if err == nil {
+			_ = fw.Close()
+			img, _ := os.ReadFile(p)
+			for i := 0; i < 1001; i++ {
+				nm := []byte(fmt.Sprintf("big/realm/s%04d", i))
+				x := append([]byte{}, img...)
+				copy(x[64:], nm) // same length: only the name bytes differ
+				fmt.Fprintf(w, "f %s x:%s v3\n", c01Hex(x), c01Hex(nm))
+			}
+		}
+	}
+	fmt.Fprintln(w, "scan")
+	// more damaged files than scan workers (the pool has at most 64), plus a few good ones
+	fmt.Fprintf(w, "case %d\n", caseNo)
+	caseNo++
+	for i := 0; i < 80; i++ {
+		junk := make([]byte, 10+rng.Intn(120))
+		rng.Read(junk)
+		fmt.Fprintf(w, "f %s x:- junk\n", c01Hex(junk))
+		if i%27 == 13 {
+			v3([]byte(fmt.Sprintf("many/damaged/good%d", i)), "v3")
+		}
+	}
+	fmt.Fprintln(w, "scan")
 	// ---- random directories
 	cases, per := 40, 14
 	if tier == "thorough" {
